@@ -202,7 +202,7 @@ class TriangleSet(primitive.Primitive):
         for j, uvindex in enumerate(self._texcoord_indexset):
             uvindices.append(uvindex[i])
             uv.append(self._texcoordset[j][uvindex[i]])
-        return Triangle(self._vertex_index[i], v, self._normal_index[i] if self._normal_index is not None else 0, n, uvindices, uv, self.material)
+        return Triangle(self._vertex_index[i], v, self._normal_index[i] if self._normal_index is not None else None, n, uvindices, uv, self.material)
 
     @staticmethod
     def load(collada, localscope, node):
